@@ -40,11 +40,13 @@ func mlFuncs(c *Ctx) map[*ssa.Function]core.LockState {
 }
 
 func c18(c *Ctx) {
+	lockPairing(c, "R-C18.8")
 	p, r := c.P, c.R
 	r.Rule("R-C18.1", "every access to MultiplexingListener.closed happens with closedMutex held: reads under R or W, writes under W (forward lock-state dataflow, defer-aware; sync.Once.Do closures inherit the caller's state)")
 	r.Rule("R-C18.2", "every send on incoming is in a read-locked region and cut by the false edge of the closed flag tested inside that same region (no lock operation between test and send)")
 	r.Rule("R-C18.3", "close(incoming) occurs only inside closedOnce.Do, under the write lock, after closed = true")
 	r.Rule("R-C18.4", "in Close the call that starts the drain goroutine precedes the Lock() acquisition (a sender blocked under the read lock would otherwise deadlock Close)")
+	r.Rule("R-C18.9", "Close always closes: every return of MultiplexingListener.Close is reached only after the drain was started, the closed flag was set and the incoming channel was closed through closedOnce (no early exit that skips them - blocked senders and their connections would be stranded)")
 	r.Rule("R-C18.5", "ownership: a connection received from incoming is returned or closed exactly once on every path of Accept; the drain goroutine closes every received connection; IngressConn and the IngressListener goroutine either send or close")
 	r.Rule("R-C18.6", "the lock state is none at every return and no lock is acquired while one is held")
 	r.Rule("R-C18.7", "Accept reports closure with the net.ErrClosed sentinel and a nil connection on the context-done arms and on the closed-channel arm")
@@ -200,6 +202,49 @@ func c18(c *Ctx) {
 			}
 		}
 		r.Check(ok, "R-C18.4", "net.(*MultiplexingListener).Close drain before Lock", p.Pos(Cl.Pos()), "drainConnections() precedes closedMutex.Lock()", "Close takes the write lock before starting the drain: a sender blocked on the unbuffered channel holds the read lock forever and Close never returns")
+		// R-C18.9: no return of Close skips the three closing steps
+		steps := map[string]*ssa.BasicBlock{}
+		for _, site := range core.SplitFind(Cl, nil, func(in ssa.Instruction) bool {
+			switch x := in.(type) {
+			case ssa.CallInstruction:
+				n := core.CalleeName(x.Common())
+				return strings.HasSuffix(n, "MultiplexingListener).drainConnections") || strings.HasSuffix(n, "sync.Once).Do")
+			case *ssa.Store:
+				w, isF := core.IsFieldAccess(x, "net.MultiplexingListener", "closed")
+				return isF && w
+			}
+			return false
+		}) {
+			// the step as seen from Close: the call that leads to it when it lives in a helper
+			blk := site.Instr.Block()
+			if len(site.Chain) > 0 {
+				blk = site.Chain[0].Block()
+			}
+			switch x := site.Instr.(type) {
+			case ssa.CallInstruction:
+				if strings.HasSuffix(core.CalleeName(x.Common()), "drainConnections") {
+					steps["drain started"] = blk
+				} else {
+					steps["incoming closed via closedOnce"] = blk
+				}
+			case *ssa.Store:
+				steps["closed = true"] = blk
+			}
+		}
+		for _, step := range []string{"drain started", "closed = true", "incoming closed via closedOnce"} {
+			blk := steps[step]
+			if blk == nil {
+				r.Bad("R-C18.9", "net.(*MultiplexingListener).Close step: "+step, p.Pos(Cl.Pos()), "Close does not perform this step")
+				continue
+			}
+			var skipping []string
+			for _, ret := range core.Returns(Cl) {
+				if reachFrom(Cl.Blocks[0], map[*ssa.BasicBlock]bool{blk: true})[ret.Block()] && ret.Block() != blk {
+					skipping = append(skipping, p.Pos(ret.Pos()))
+				}
+			}
+			r.Check(len(skipping) == 0, "R-C18.9", "net.(*MultiplexingListener).Close step: "+step, p.Pos(Cl.Pos()), "on every path to every return", "a return of Close ("+strings.Join(skipping, ", ")+") is reachable without this step: senders blocked on the channel and their connections are stranded")
+		}
 		// the drain goroutine is actually spawned under drainSpawned.Do and cancel is called
 		if D := c.need("R-C18.4", "net", "(*MultiplexingListener).drainConnections"); D != nil {
 			spawn := false
